@@ -189,7 +189,7 @@ PROPS["C15"] = {
     "verus": {"serial": ["Table::write_rows", "StringPool::write_pool", "StringPool::write_data", "PropertySet::write",
                          "PropertyValue::write", "ColumnType::write_value", "StringRef::write", "SummaryInfo::write"],
               "finish": ["FinishImpl::finish", "StringPool::is_modified", "StringPool::mark_unmodified",
-                         "Package::flush", "Package::set_finisher", "Package::comp_mut"]},
+                         "Package::flush", "Package::set_finisher", "Package::comp_mut", "Package::drop"]},
     "assumptions": [
         "the writer is modelled by VSink (prelude/sink.rs): bytes accepted vs bytes known committed; only a successful flush() commits; any call may fail -- this is what the documented Write contract lets generic code assume about cfb::Stream, whose Drop discards the result of its final flush",
         "decided: each of the four serializers (write_rows, write_pool, write_data, PropertySet::write) and the forwarder SummaryInfo::write returns Ok only after a successful flush that follows its last write, and propagates every writer error it sees",
